@@ -12,7 +12,7 @@ import (
 // NetFaultKinds lists the network fault kinds (dishonest or failing network).
 var NetFaultKinds = []string{
 	"net-error", "bitflip", "truncate", "extend", "swap", "tile-swap-hashes", "tile-dup-hash", "stale",
-	"forge-record", "forge-record+leaf", "forge-chain-wrongkey", "forge-chain-unsigned", "unsigned-head",
+	"forge-record", "forge-record-other-id", "forge-record+leaf", "forge-chain-wrongkey", "forge-chain-unsigned", "unsigned-head",
 	"head-text-tamper", "craft-append", "equivocate", "zero",
 }
 
@@ -161,7 +161,7 @@ func (w *World) applyNetFault(c *ClientInfo, f *Fault, path string, data []byte,
 		}
 		out = append([]byte(nil), old[int(f.A%uint64(len(old)-1))]...)
 		what = "replay of an earlier answer"
-	case "forge-record", "forge-record+leaf", "forge-chain-wrongkey", "forge-chain-unsigned", "unsigned-head", "head-text-tamper", "craft-append":
+	case "forge-record", "forge-record-other-id", "forge-record+leaf", "forge-chain-wrongkey", "forge-chain-unsigned", "unsigned-head", "head-text-tamper", "craft-append":
 		if !isLookup {
 			return data, err
 		}
@@ -174,6 +174,11 @@ func (w *World) applyNetFault(c *ClientInfo, f *Fault, path string, data []byte,
 		switch f.Kind {
 		case "forge-record":
 			out = append([]byte(ref.FormatRecordMsg(id, forged)), rest...)
+		case "forge-record-other-id":
+			// the forged record claims the number of another record (one the client may have validated
+			// earlier), under the genuine signed head
+			oid := int64(f.A / 4 % uint64(c.Size))
+			out = append([]byte(ref.FormatRecordMsg(oid, forged)), rest...)
 		case "forge-record+leaf":
 			out = append([]byte(ref.FormatRecordMsg(id, forged)), rest...)
 			if c.ForgedLeaf == nil {
